@@ -1,0 +1,72 @@
+// Copyright 2026 The osvbng Authors
+// Licensed under the GNU General Public License v3.0 or later.
+// SPDX-License-Identifier: GPL-3.0-or-later
+
+package l2gw
+
+import (
+	"net"
+	"testing"
+
+	"github.com/veesix-networks/osvbng/pkg/component"
+	"github.com/veesix-networks/osvbng/pkg/config"
+	"github.com/veesix-networks/osvbng/pkg/config/subscriber"
+	"github.com/veesix-networks/osvbng/pkg/dataplane"
+	"github.com/veesix-networks/osvbng/pkg/events"
+	"github.com/veesix-networks/osvbng/pkg/logger"
+	"github.com/veesix-networks/osvbng/pkg/models"
+)
+
+type policyTestCfgMgr struct {
+	cfg *config.Config
+	idx *subscriber.MatchIndex
+}
+
+func (m *policyTestCfgMgr) GetRunning() (*config.Config, error) { return m.cfg, nil }
+func (m *policyTestCfgMgr) GetStartup() (*config.Config, error) { return m.cfg, nil }
+func (m *policyTestCfgMgr) LookupSubscriberGroup(s, c uint16) (subscriber.GroupMatch, bool) {
+	return m.idx.Lookup(s, c)
+}
+
+type policyTestBus struct {
+	events.Bus
+	policy []string
+}
+
+func (b *policyTestBus) Publish(topic string, ev events.Event) {
+	if d, ok := ev.Data.(*events.AAARequestEvent); ok && topic == events.TopicAAARequest {
+		b.policy = append(b.policy, d.Request.PolicyName)
+	}
+}
+
+// Two ranges of one group share S-VLAN 100 and differ in C-VLAN: the AAA policy
+// has to follow the range the pair is classified to.
+func TestTriggerUsesPolicyOfMatchedRange(t *testing.T) {
+	sg := &subscriber.SubscriberGroupsConfig{Groups: map[string]*subscriber.SubscriberGroup{
+		"wholesale": {
+			AccessTypes: []subscriber.AccessType{subscriber.AccessTypeL2GW},
+			AAAPolicy:   "group-default",
+			VLANs: []subscriber.VLANRange{
+				{SVLAN: "100", CVLAN: "any", AAA: &subscriber.VLANAAAs{Policy: "wildcard"}},
+				{SVLAN: "100", CVLAN: "20", AAA: &subscriber.VLANAAAs{Policy: "cvlan20"}},
+				{SVLAN: "200"},
+			},
+		},
+	}}
+	mgr := &policyTestCfgMgr{cfg: &config.Config{SubscriberGroups: sg}, idx: subscriber.BuildMatchIndex(sg)}
+	for _, tc := range []struct {
+		s, c uint16
+		want string
+	}{{100, 20, "cvlan20"}, {100, 7, "wildcard"}, {200, 7, "group-default"}} {
+		bus := &policyTestBus{}
+		c := &Component{Base: component.NewBase("l2gw"), logger: logger.Get(logger.L2GW), eventBus: bus, cfgMgr: mgr}
+		pkt := &dataplane.ParsedPacket{Protocol: models.ProtocolL2, MAC: net.HardwareAddr{2, 0, 0, 0, 0, 1},
+			OuterVLAN: tc.s, InnerVLAN: tc.c}
+		if err := c.handleTrigger(pkt); err != nil {
+			t.Fatalf("svlan %d cvlan %d: %v", tc.s, tc.c, err)
+		}
+		if len(bus.policy) != 1 || bus.policy[0] != tc.want {
+			t.Errorf("svlan %d cvlan %d: AAA policy %q, want %q", tc.s, tc.c, bus.policy, tc.want)
+		}
+	}
+}
